@@ -161,7 +161,7 @@ def si(x):
 SCALABLE = ("(%s and %s and split_u(a) == split_u(b) and split_w(a) == split_w(b))" % (si("a"), si("b")))
 
 REG.contract(
-    "nixio.util.units.scalable#str", replay=dict(harness="c09_units"), props=["C09"],
+    "nixio.util.units.scalable#str", replay=dict(harness="c09_units"), props=["C09", "C14", "C08"],
     params=dict(units_a=Str, units_b=Str), result=Bool,
     let="a = units_a; b = units_b",
     # property: same base unit and power <=> scalable
